@@ -618,3 +618,35 @@ Section KDP.
     rewrite Forall_forall in Hf. apply kcount_nodup. exact (Hf _ Hin).
   Qed.
 End KDP.
+
+(* ------------------------------------------------------------------ the answer of the calculator, read declaratively *)
+Section MEANING.
+  Context {K : Type}.
+  Variable keqb : K -> K -> bool.
+  Hypothesis keqb_refl : forall a, keqb a a = true.
+  Hypothesis keqb_sym : forall a b, keqb a b = keqb b a.
+  Hypothesis keqb_trans : forall a b c, keqb a b = true -> keqb b c = true -> keqb a c = true.
+  Variable OE : Z -> eres (list (K * Z)).
+
+  Theorem bc_calculate_meaning CEn fuel n prev r ctys :
+    bc_calculate keqb OE CEn fuel n prev = BC_ok r ->
+    exists res, CEn = Ok res /\ 0 <= r /\
+      (wf_res keqb res -> wf_prev keqb prev -> NoDup ctys -> incl (map fst res) ctys -> incl (map fst prev) ctys ->
+       (exists pr, OE (n - drop_of keqb res prev + r) = Ok pr /\
+          forall k, tier keqb res k = true -> need keqb res prev ctys k <= kget0 keqb pr k) /\
+       (forall a, 0 <= a < r -> exists ph, OE (n - drop_of keqb res prev + a) = Ok ph /\
+          exists k, tier keqb res k = true /\ kget0 keqb ph k < need keqb res prev ctys k)).
+  Proof.
+    intros H. destruct (bc_calculate_ok keqb OE CEn fuel n prev r H) as (res & Hc & Hr & (pr & Hp1 & Hp2) & Hmin).
+    exists res. split; [exact Hc|]. split; [exact Hr|]. intros Hwr Hwp Hk Hir Hip. split.
+    - exists pr. split; [exact Hp1|]. intros k Ht.
+      rewrite <- (lowest_allowed_need keqb keqb_sym keqb_trans res prev ctys k Hwr Hwp Hk Hir Hip Ht).
+      apply (ksatisfied_true keqb keqb_sym keqb_trans _ _ Hp2).
+      rewrite (lowest_allowed_mem keqb keqb_sym keqb_trans). exact Ht.
+    - intros a Ha. destruct (Hmin a Ha) as (ph & Hq1 & Hq2). exists ph. split; [exact Hq1|].
+      destruct (ksatisfied_false keqb keqb_refl keqb_sym keqb_trans _ _
+                  (lowest_allowed_nodup keqb keqb_sym keqb_trans res prev) Hq2) as (k & Hm & Hlt).
+      rewrite (lowest_allowed_mem keqb keqb_sym keqb_trans) in Hm. exists k. split; [exact Hm|].
+      rewrite <- (lowest_allowed_need keqb keqb_sym keqb_trans res prev ctys k Hwr Hwp Hk Hir Hip Hm). exact Hlt.
+  Qed.
+End MEANING.
